@@ -133,8 +133,8 @@ def rightmostScan : List TSel → Option TSel → Option TSel
 
 def TSet.leftmost (s : TSet) : Option TSel :=
   if s.sorted then s.items.head? else leftmostScan s.items none
-def TSet.rightmost (s : TSet) : Option TSel :=
-  if s.sorted then s.items.getLast? else rightmostScan s.items none
+/-- (no fast path: a sorted set is ordered by begin first, its last item need not have the highest end) -/
+def TSet.rightmost (s : TSet) : Option TSel := rightmostScan s.items none
 
 /-- smallest `begin` / largest `end` among the items (the inline loops of
 `TextSelection::test_set` for Precedes/Succeeds `all`) -/
